@@ -784,7 +784,14 @@ func TestVerifC19Numa(t *testing.T) {
 				}
 			}
 			if !c19SameLines(got, live) {
-				if c19OnlyMixedMarks(got, live, c19Union(mixedCPUs, shadowCPUs)) && c19ForeignMarker(got, holders, shadowCPUs) {
+				shadowOnly := map[int]bool{} // in the live ledger a foreign marker can also stem from a deleted holder of a mixed CPU
+				for c := range shadowCPUs {
+					if !mixedCPUs[c] {
+						shadowOnly[c] = true
+					}
+				}
+				if c19OnlyMixedMarks(got, live, c19Union(mixedCPUs, shadowCPUs)) &&
+					(c19ForeignMarker(got, holders, shadowCPUs) || c19ForeignMarker(live, holders, shadowOnly)) {
 					h.Fail("C19:numa-reservation-excl-shadowed", "rebuilt ledger differs from the live one only in the exclusive-policy marker of CPUs held by a Reservation whose resource spec sits on spec.template (PreBind wrote a spec without it onto the Reservation): live=%v rebuilt=%v", live, got)
 				} else if c19OnlyMixedMarks(got, live, mixedCPUs) {
 					h.Fail("C19:numa-excl-mark-last-writer", "rebuilt ledger differs from the live one only in the exclusive-policy marker of a CPU held by pods with different policies: live=%v rebuilt=%v", live, got)
@@ -796,7 +803,9 @@ func TestVerifC19Numa(t *testing.T) {
 			if round == 0 {
 				first = got
 			} else if !c19SameLines(got, first) {
-				if c19OnlyMixedMarks(got, first, mixedCPUs) {
+				if c19OnlyMixedMarks(got, first, c19Union(mixedCPUs, shadowCPUs)) && (c19ForeignMarker(got, holders, shadowCPUs) || c19ForeignMarker(first, holders, shadowCPUs)) {
+					h.Fail("C19:numa-reservation-excl-shadowed", "two delivery orders differ only in the exclusive-policy marker of CPUs held by a Reservation whose policy (declared on spec.template) was not read back: %v vs %v", first, got)
+				} else if c19OnlyMixedMarks(got, first, mixedCPUs) {
 					h.Fail("C19:numa-excl-mark-last-writer", "two delivery orders differ only in the exclusive-policy marker of a shared CPU: %v vs %v", first, got)
 				} else {
 					h.Fail("C19:numa-order-dependent", "two delivery orders rebuild different ledgers: %v vs %v", first, got)
